@@ -13,11 +13,19 @@ Record xsetup := mkX {
   x_inst : Z;          (* size of the profile set with tj3SetICCProfile(), 0 = none *)
   x_got : bool }.      (* tj3GetICCProfile() called between tj3DecompressHeader() and tj3TransformBufSize() *)
 
-(* tempICCSize when tj3TransformBufSize() is called *)
-Definition temp_icc (x : xsetup) : Z :=
-  if gen_header_extracts (x_save x) && negb (x_got x && gen_get_zeroes_temp) then x_src x else 0.
+(* tempICCSize when tj3TransformBufSize() is called; [zeroes] = tj3GetICCProfile() resets it *)
+Definition temp_icc_with (zeroes : bool) (x : xsetup) : Z :=
+  if gen_header_extracts (x_save x) && negb (x_got x && zeroes) then x_src x else 0.
+Definition size_term_with (term : Z -> bool -> Z -> Z -> Z) (zeroes : bool) (x : xsetup) : Z :=
+  term (x_save x) (x_copynone x) (temp_icc_with zeroes x) (x_inst x).
 
-Definition size_term (x : xsetup) : Z := gen_size_term (x_save x) (x_copynone x) (temp_icc x) (x_inst x).
+(* the tree as it is *)
+Definition temp_icc (x : xsetup) : Z := temp_icc_with gen_get_zeroes_temp x.
+Definition size_term (x : xsetup) : Z := size_term_with gen_size_term gen_get_zeroes_temp x.
+
+(* the rules before the two fixes (bc00053, 63ab915), kept as refuted models *)
+Definition old_size_term_rule (save : Z) (copynone : bool) (temp inst : Z) : Z :=
+  if ((save =? 2) || (save =? 4)) && negb copynone then temp else inst.
 
 (* tj3Transform: the source header is read again with the markers selected by the copy option *)
 Definition copy_opt (x : xsetup) : Z := gen_copy_option (x_save x) (x_copynone x).
@@ -29,8 +37,3 @@ Definition icc_written (x : xsetup) : Z := copied_bytes x + inst_bytes x.
 
 Definition valid_setup (x : xsetup) : Prop := 0 <= x_save x <= 4 /\ 0 <= x_src x /\ 0 <= x_inst x.
 
-(* the two situations in which the size function and the transform disagree in the tree as it is *)
-Definition no_source_profile_case (x : xsetup) : bool :=   (* (i) nothing to copy, instance profile written *)
-  gen_header_extracts (x_save x) && negb (x_copynone x) && (x_src x =? 0) && (0 <? x_inst x).
-Definition after_get_case (x : xsetup) : bool :=           (* (ii) tempICCSize zeroed by tj3GetICCProfile *)
-  x_got x && gen_header_extracts (x_save x) && negb (x_copynone x) && (0 <? x_src x).
